@@ -965,6 +965,12 @@ def inline_stmt_calls(func, resolve, max_depth: int = 3):
                 if r is not None and r[0] is not func:
                     callee, recv = r
                     kind = _simple_callee(callee)
+                    if kind is None and isinstance(st, ast.Expr) and isinstance(callee, ast.FunctionDef):
+                        # a PROCEDURE with guard clauses (`if nothing_to_do: return` .. work): the same statements with the guard
+                        # clauses turned into if / else arms (_tailify) are straight-line and can be put back
+                        c2 = _procedure_without_early_returns(callee)
+                        if c2 is not callee and _simple_callee(c2) == "stmts":
+                            callee, kind = c2, "stmts"
                     if kind == "expr":
                         e = inline_expr(callee, c, recv)
                         if e is not None:
@@ -3812,9 +3818,28 @@ def inline_local_objects(func, resolve_class, max_depth: int = 4):
                   for t in ([t] if not isinstance(t, (ast.Tuple, ast.List)) else t.elts)
                   if isinstance(t, ast.Attribute) and isinstance(t.value, ast.Name) and t.value.id == m.args.args[0].arg}
         class_level = {t.id for st in cls.body if isinstance(st, ast.Assign) for t in st.targets if isinstance(t, ast.Name)}
-        if fields & set(meths) or class_level:
+        # class-level LITERAL constants that no method assigns through the instance (`absent = ("N", "NONE")`, read as `self.absent`)
+        # are written in place where they are read; any other class-level binding keeps the object a call
+
+        def _lit(v):
+            return isinstance(v, ast.Constant) or (isinstance(v, (ast.Tuple, ast.List)) and all(_lit(e) for e in v.elts))
+        class_consts = {st.targets[0].id: st.value for st in cls.body if isinstance(st, ast.Assign) and len(st.targets) == 1 and isinstance(st.targets[0], ast.Name) and _lit(st.value)}
+        if fields & set(meths) or class_level - set(class_consts) or set(class_consts) & (fields | set(meths)) \
+                or any(isinstance(st, ast.AnnAssign) and st.value is not None for st in cls.body if not decs):
             continue
         work = copy.deepcopy(out)
+        # `float(x)` / `str(x)` / `int(x)` / `bool(x)` / `len(x)` of an object whose class defines the conversion is that method's call
+        conv = {"float": "__float__", "str": "__str__", "int": "__int__", "bool": "__bool__", "len": "__len__"}
+
+        class Conv(ast.NodeTransformer):
+            def visit_Call(self, n):
+                self.generic_visit(n)
+                if isinstance(n.func, ast.Name) and conv.get(n.func.id) in meths and len(n.args) == 1 and not n.keywords and isinstance(n.args[0], ast.Name) and n.args[0].id == x:
+                    return ast.copy_location(ast.Call(func=ast.Attribute(value=n.args[0], attr=conv[n.func.id], ctx=ast.Load()), args=[], keywords=[]), n)
+                return n
+        if any(m_ in meths for m_ in conv.values()):
+            work = Conv().visit(work)
+            ast.fix_missing_locations(work)
         # every use of x is `x.<something>`
         parents = {}
         for n in ast.walk(work):
@@ -3882,6 +3907,15 @@ def inline_local_objects(func, resolve_class, max_depth: int = 4):
             if ast.dump(work) == before:
                 break
         # 3. the fields become locals; anything else still said about x means the object was not fully dissolved
+        if class_consts:
+            class Consts(ast.NodeTransformer):
+                def visit_Attribute(self, n):
+                    self.generic_visit(n)
+                    if isinstance(n.value, ast.Name) and n.value.id == x and n.attr in class_consts and isinstance(n.ctx, ast.Load):
+                        return ast.copy_location(copy.deepcopy(class_consts[n.attr]), n)
+                    return n
+            work = Consts().visit(work)
+            ast.fix_missing_locations(work)
         left = [n for n in ast.walk(work) if isinstance(n, ast.Attribute) and isinstance(n.value, ast.Name) and n.value.id == x and n.attr not in fields]
         if left:
             continue
